@@ -408,3 +408,133 @@ func checkExportLoadsRequestedHeight(p *Prog, r *Report, kp func(string, string)
 	}
 	r.Count("export-height-loads", n)
 }
+
+// entriesOfFunc: fn returns, in some order, one struct per entry of the one map it ranges over, holding the entry's key in field
+// keyField and its value in field valField: a single range over a map, the loop's exhaustion test as only branch, one
+// unconditional append of a struct literal built from the iteration's key and value; beyond that it only sorts.
+func entriesOfFunc(fn *ssa.Function) (keyField, valField string, ok bool) {
+	if fn == nil || fn.Blocks == nil || len(fn.Blocks) > 8 || fn.Signature.Results().Len() != 1 {
+		return "", "", false
+	}
+	if _, isSl := fn.Signature.Results().At(0).Type().Underlying().(*types.Slice); !isSl {
+		return "", "", false
+	}
+	var next *ssa.Next
+	nRange, nIf, nAppend := 0, 0, 0
+	var lit *ssa.Alloc
+	for _, b := range fn.Blocks {
+		for _, in := range b.Instrs {
+			switch x := in.(type) {
+			case *ssa.Range:
+				if _, isMap := x.X.Type().Underlying().(*types.Map); !isMap {
+					return "", "", false
+				}
+				nRange++
+			case *ssa.Next:
+				if next != nil {
+					return "", "", false
+				}
+				next = x
+			case *ssa.If:
+				nIf++
+				ex, isEx := x.Cond.(*ssa.Extract)
+				if !isEx || ex.Index != 0 {
+					return "", "", false
+				}
+				if _, isNext := ex.Tuple.(*ssa.Next); !isNext {
+					return "", "", false
+				}
+			case *ssa.Call:
+				if bi, isB := x.Call.Value.(*ssa.Builtin); isB {
+					switch bi.Name() {
+					case "len", "cap":
+					case "append":
+						if !inCycle(b) {
+							return "", "", false
+						}
+						nAppend++
+					default:
+						return "", "", false
+					}
+					continue
+				}
+				sc := x.Call.StaticCallee()
+				if sc == nil {
+					return "", "", false
+				}
+				pk := ""
+				if sc.Pkg != nil {
+					pk = sc.Pkg.Pkg.Path()
+				} else if og := sc.Origin(); og != nil && og.Pkg != nil {
+					pk = og.Pkg.Pkg.Path()
+				}
+				if pk != "sort" && pk != "slices" {
+					return "", "", false
+				}
+			case *ssa.Alloc:
+				if _, isSt := x.Type().Underlying().(*types.Pointer).Elem().Underlying().(*types.Struct); isSt && inCycle(b) {
+					if lit != nil {
+						return "", "", false
+					}
+					lit = x
+				}
+			case *ssa.Go, *ssa.Defer, *ssa.MapUpdate, *ssa.Send, *ssa.Panic:
+				return "", "", false
+			}
+		}
+	}
+	if nRange != 1 || next == nil || nIf != 1 || nAppend != 1 || lit == nil || lit.Referrers() == nil {
+		return "", "", false
+	}
+	for _, rf := range *lit.Referrers() {
+		fa, isFA := rf.(*ssa.FieldAddr)
+		if !isFA || fa.Referrers() == nil {
+			continue
+		}
+		for _, r2 := range *fa.Referrers() {
+			st, isSt := r2.(*ssa.Store)
+			if !isSt || st.Addr != ssa.Value(fa) {
+				continue
+			}
+			ex, isEx := st.Val.(*ssa.Extract)
+			if !isEx || ex.Tuple != ssa.Value(next) {
+				return "", "", false // a field filled with something else than the iteration's key or value
+			}
+			switch ex.Index {
+			case 1:
+				keyField = fieldName(fa.X.Type(), fa.Field)
+			case 2:
+				valField = fieldName(fa.X.Type(), fa.Field)
+			}
+		}
+	}
+	return keyField, valField, keyField != "" && valField != ""
+}
+
+// pairWalk: key = pairs[i].K and val = *pairs[i].V for the same element of the result of an entries-of function (entriesOfFunc),
+// K and V being the fields it fills with the map key and the map value.
+func pairWalk(key, val *Term) bool {
+	if key == nil || val == nil || key.Op != "field" || len(key.Args) != 1 || val.Op != "deref" || len(val.Args) != 1 {
+		return false
+	}
+	vf := val.Args[0]
+	if vf.Op != "field" || len(vf.Args) != 1 || !vf.Args[0].Eq(key.Args[0]) {
+		return false
+	}
+	elem := key.Args[0]
+	if elem.Op == "deref" && len(elem.Args) == 1 {
+		elem = elem.Args[0]
+	}
+	if (elem.Op != "index" && elem.Op != "indexaddr") || len(elem.Args) != 2 || elem.Args[0].Op != "call" {
+		return false
+	}
+	c, isCall := elem.Args[0].Val.(*ssa.Call)
+	if !isCall {
+		return false
+	}
+	if c.Call.StaticCallee() == nil {
+		return false
+	}
+	kf, vfn, ok := entriesOfFunc(resolveBound(c.Call.StaticCallee()))
+	return ok && kf == key.Name && vfn == vf.Name
+}
